@@ -2,34 +2,76 @@ from vdriver import U
 
 PROPERTY = {
     "level": "other",
-    "explanation": "draft",
-    "trusted_base": [],
-    "assumptions": [],
-    "not_applicable_clauses": [],
+    "explanation": "structural clauses of LU / LDL^T / Cholesky on the real code for orders 1..3 (quick) / 1..5 (thorough), order and contents symbolic, "
+                   "every matrix/vector an exactly sized malloc block: a_real_plu leaves a true permutation in p whose parity is the reported sign (also on failure), "
+                   "reports failure for a zero pivot column and never records a pivot below the threshold; a_real_ldl / a_real_llt report failure for a vanishing / "
+                   "non-positive pivot, success implies no pivot below the threshold and (finite input, given the assumed sqrt contract) a strictly positive Cholesky diagonal; "
+                   "plu_P / plu_P_ build exactly the permutation matrix of p and its transpose; plu_L/U, ldl_L/D, llt_L, plu_apply are bit-exact extractions; sgndet sign logic; "
+                   "for L = U = identity solve/inv/inv_ return exactly P b resp. P; the buffered and in-place inverses agree; memory safety and frame "
+                   "(factor, permutation, right-hand side unchanged; strided in-place variants write only their column; ldl/llt never touch the strict upper triangle) of every routine of the three files",
+    "trusted_base": ["cbmc 6.11.0 (bit-precise SAT back end, IEEE-754 float encoding, memory model of malloc'd blocks with pointer checks)",
+                     "cvc5 (units inv_agree, duplicate_rows)",
+                     "libm by assumed contracts (stubs in harness/linalg_fact.c): sqrt(NaN or x<0) is NaN, sqrt(+-0) = +-0, sqrt(x>0) > 0 and finite iff x finite; log returns an arbitrary value; fabs is cbmc's exact built-in",
+                     "a_real = double (config/a.verif.h); a_real_swap of src/math.c is the compiled real code"],
+    "assumptions": [
+        "NOT APPLICABLE (DESIGN.md section 5, C08): reconstruction P A = L U / A = L D L^T / A = L L^T within the rounding bound, residual bounds of solve/inv, agreement of det / lndet / sgndet with one another, 'multipliers bounded by one': all are facts about chains of IEEE multiplications/divisions (a single division range fact is outside the solver's reach); the values returned by det/lndet are not asserted",
+        "bounded: orders 1..3 (quick), 1..5 (thorough); literal n per library call, one guarded call per order",
+        "'success => no recorded pivot is below the threshold' is stated as !(|pivot| < A_REAL_MIN) for arbitrary contents (NaN, infinities included) - exactly the clause 'a vanishing pivot is reported as failure'; the stronger 'every pivot is a NUMBER >= threshold' / 'Cholesky diagonal > 0' is stated for finite inputs in the *_strong units",
+        "the *_strong3 units (order 3, all finite inputs) FAIL on the unchanged library (genuine defect, reported): the failure tests 'x < A_REAL_MIN' are false for NaN, and an intermediate overflow (division by a tiny pivot in ldl/llt, growth near DBL_MAX in plu) produces inf, then 0*inf or inf-inf = NaN, so success is reported with a NaN pivot; llt_strong3f states the Cholesky clause for order 3 under the extra hypothesis that the computed off-diagonal factor entries are finite (holds)",
+        "exactly singular inputs are covered structurally: zero first column (plu), vanishing/non-positive first pivot (ldl/llt), order 1 exactly, diagonal matrices with the offending entry at any position (unit singular), 2 x 2 duplicated rows (unit duplicate_rows); not for arbitrary singular matrices (needs exact reasoning about the elimination arithmetic)",
+        "plu_perm (L = U = identity) and inv_agree are the only value clauses of solve/inv: exact-domain and term-identity statements, no accuracy claim",
+        "inv_agree is decided by cvc5 on integer-valued factor entries (any int) and carries no canary; its twin inv_agree_mem (same entry, SAT) carries the canary and the memory-safety obligations",
+        "matrix class: ldl/llt read only the lower triangle, so 'symmetric' is no restriction of the harness inputs; positive definiteness is not assumed anywhere",
+    ],
+    "not_applicable_clauses": ["factors multiply back to the (row-permuted) input within the rounding bound", "residual bounds of solve / inverse", "det / lndet / sgndet agree with one another (values)", "multipliers bounded by one under partial pivoting"],
 }
 RP = {"native": True, "sources": ["a.c"]}
-B3 = "orders n in 1..3 (literal n per call; order and contents symbolic)"
 def F(name, fns, **kw):
-    kw.setdefault("timeout", 120)
+    kw.setdefault("timeout", 300)
     kw.setdefault("unwind", 11)
-    kw.setdefault("bound", B3)
+    kw.setdefault("bound", "orders n in 1..3 (literal n per call; order and contents symbolic)")
+    kw.setdefault("min_obl", 3)
     return U(name, "linalg_fact.c", "h_" + kw.pop("entry", name), functions=fns, replay=RP, level="B", **kw)
+SOLVE = lambda k: ["a_real_%s_%s" % (k, f) for f in ("L", "lower", "lower_", "upper", "upper_", "solve", "inv", "inv_", "det", "lndet")]
+NOAGREE = "^(?!.*agree: element for element)"
 UNITS = [
-    F("plu", ["a_real_plu"]),
-    F("plu_strong", ["a_real_plu"], defines=["NHI=2"]),
-    F("plu_strong3", ["a_real_plu"], entry="plu_strong", defines=["NLO=3"]),
-    F("plu_P", ["a_real_plu_P", "a_real_plu_P_"]),
-    F("plu_solve", [], cbmc=["--slice-formula"]),
-    F("plu_inv", [], cbmc=["--slice-formula"]),
-    F("plu_perm", []),
-    F("plu_scalar", [], cbmc=["--slice-formula"]),
-    F("ldl", ["a_real_ldl"]),
-    F("ldl_strong", ["a_real_ldl"], defines=["NHI=2"]),
-    F("ldl_strong3", ["a_real_ldl"], entry="ldl_strong", defines=["NLO=3"]),
-    F("llt", ["a_real_llt"]),
-    F("llt_strong2", ["a_real_llt"], entry="llt_strong", defines=["NHI=2"]),
-    F("llt_strong3", ["a_real_llt"], entry="llt_strong", defines=["NLO=3"]),
-    F("llt_strong3f", ["a_real_llt"], entry="llt_strong", defines=["NLO=3", "LLT_FINITE_L"]),
-    F("ldl_solve", [], cbmc=["--slice-formula"]),
-    F("llt_solve", [], cbmc=["--slice-formula"]),
+    F("plu", ["a_real_plu"], key=["p is a permutation", "parity of the permutation", "zero first \\(pivot\\) column", "no recorded pivot is below"], cost=20),
+    F("plu_strong2", ["a_real_plu"], entry="plu_strong", defines=["NHI=2"], key=["number of magnitude >= threshold"],
+      bound="orders 1..2, finite entries"),
+    F("plu_strong3", ["a_real_plu"], entry="plu_strong", defines=["NLO=3"], key=["number of magnitude >= threshold"], cost=30,
+      bound="order 3, finite entries"),
+    F("plu_P", ["a_real_plu_P", "a_real_plu_P_"], key=["one in column p\\[r\\]", "exactly the transpose"]),
+    F("plu_solve", ["a_real_plu_L", "a_real_plu_U", "a_real_plu_apply", "a_real_plu_lower", "a_real_plu_lower_", "a_real_plu_upper", "a_real_plu_upper_", "a_real_plu_solve"],
+      cbmc=["--slice-formula"], key=["only the addressed column", "factor matrix unchanged", "plu_apply"]),
+    F("plu_inv", ["a_real_plu_inv", "a_real_plu_inv_"], cbmc=["--slice-formula"], key=["factor matrix unchanged"]),
+    F("plu_perm", ["a_real_plu_solve", "a_real_plu_inv", "a_real_plu_inv_"], key=["exactly the permutation matrix P", "exactly P b"], cost=30,
+      bound="orders 1..3; L = U = identity, any permutation p, integer right-hand side |b| <= 2^10"),
+    F("plu_scalar", ["a_real_plu_det", "a_real_plu_lndet", "a_real_plu_sgndet"], cbmc=["--slice-formula"], key=["plu_sgndet"]),
+    F("ldl", ["a_real_ldl"], key=["no pivot D\\[c\\] is below", "strict upper triangle is not written"], cost=20),
+    F("ldl_strong2", ["a_real_ldl"], entry="ldl_strong", defines=["NHI=2"], key=["number of magnitude >= threshold"], bound="orders 1..2, finite entries"),
+    F("ldl_strong3", ["a_real_ldl"], entry="ldl_strong", defines=["NLO=3"], key=["number of magnitude >= threshold"], bound="order 3, finite entries"),
+    F("llt", ["a_real_llt"], key=["non-positive first pivot", "no pivot is zero or negative", "strict upper triangle is not written"], cost=20),
+    F("llt_strong2", ["a_real_llt"], entry="llt_strong", defines=["NHI=2"], key=["strictly positive Cholesky diagonal"], bound="orders 1..2, finite entries"),
+    F("llt_strong3", ["a_real_llt"], entry="llt_strong", defines=["NLO=3"], key=["strictly positive Cholesky diagonal"], bound="order 3, finite entries"),
+    F("llt_strong3f", ["a_real_llt"], entry="llt_strong", defines=["NLO=3", "LLT_FINITE_L"], key=["strictly positive Cholesky diagonal"],
+      bound="order 3, finite entries, runs whose computed off-diagonal factor entries are finite"),
+    F("ldl_solve", SOLVE("ldl") + ["a_real_ldl_D", "a_real_ldl_sgndet"], cbmc=["--slice-formula"], key=["only the addressed column", "factor matrix unchanged", "ldl_sgndet"]),
+    F("llt_solve", SOLVE("llt"), cbmc=["--slice-formula"], key=["only the addressed column", "factor matrix unchanged"]),
+    F("inv_agree", ["a_real_plu_inv_", "a_real_ldl_inv_", "a_real_llt_inv_"], solver="cvc5", only=["agree: element for element"], no_canary=True, min_obl=3,
+      key=["plu_inv and plu_inv_ agree", "ldl_inv and ldl_inv_ agree", "llt_inv and llt_inv_ agree"], bound="orders 1..3, integer-valued factor entries (any int)"),
+    F("inv_agree_mem", ["a_real_plu_inv_", "a_real_ldl_inv_", "a_real_llt_inv_"], entry="inv_agree", only=[NOAGREE], cbmc=["--slice-formula"], bound="orders 1..3, integer-valued factor entries (any int)"),
+    F("singular", ["a_real_plu", "a_real_ldl", "a_real_llt"], key=["zero pivot column at any step", "vanishing pivot at any step", "non-positive pivot at any step"], cost=40,
+      bound="orders 1..3, diagonal matrices"),
+    F("duplicate_rows", ["a_real_plu"], solver="cvc5", key=["duplicated rows"], bound="order 2, finite entries"),
 ]
+
+# ---- thorough tier: orders up to 5 ----
+for u in list(UNITS):
+    if u["name"].endswith(("_strong2", "_strong3", "_strong3f")) or u["name"] == "duplicate_rows":
+        continue
+    t = dict(u)
+    name = t.pop("name"); t.pop("harness"); entry = t.pop("entry"); fns = t.pop("functions")
+    t.pop("replay", None); t.pop("level", None)
+    t.update(tiers=("thorough",), defines=list(u.get("defines") or []) + ["MAXD=5"], unwind=27, timeout=1800, cost=100,
+             cbmc=list(u.get("cbmc") or []) + ["--object-bits", "12"], bound=u["bound"].replace("1..3", "1..5"))
+    UNITS.append(F(name + "_d5", fns, entry=entry[2:], **t))
